@@ -12,7 +12,7 @@ fn versions() {
     let seed: u64 = std::env::var("VERIF_SEED").ok().and_then(|s| s.parse().ok()).unwrap_or(1);
     let pp = shared::setup(2048);
     for (size, a) in [(64usize, 3u64 + seed % 5), (300, 5 + seed % 7)] {
-        let circuit = shared::Mixed { size, a };
+        let circuit = shared::Mixed { size, a, variant: 0 };
         let label = format!("c04-{size}");
         let (prover, verifier) = match Compiler::compile_with_circuit(&pp, label.as_bytes(), &circuit) {
             Ok(k) => k,
@@ -72,5 +72,14 @@ fn main() {
                 println!("{size}.error {e:?}");
             }
         }
+    }
+    // the history set in an order of its own
+    match shared::history_digests(&pp, &[1, 2, 0]) {
+        Ok(d) => {
+            for (k, v) in d {
+                println!("{k} {v}");
+            }
+        }
+        Err(e) => println!("history.error {e:?}"),
     }
 }
